@@ -298,14 +298,17 @@ def cif_tokens(text: str):
             pos = end
 
 
-def parse_cif(text: str):
-    """returns ordered list of categories: [(category, [items], [rows])] for the first data block.
-    key-value categories become a single row."""
+def parse_cif(text: str, all_blocks: bool = False):
+    """returns ordered list of categories: [(category, [items], [rows])]; key-value categories become a single row.
+    With all_blocks=True the categories of the k-th further data block (k >= 1) are listed as '#k/<category>';
+    otherwise a second data block is an error for the callers that expect one."""
     cats: Dict[str, dict] = {}
     order = []
     toks = list(cif_tokens(text))
     i = 0
     n = len(toks)
+    block = -1
+    prefix = ""
 
     def is_tag(t):
         return t[0] == "word" and t[1].startswith("_")
@@ -321,6 +324,11 @@ def parse_cif(text: str):
         k, v = toks[i]
         if k == "word" and v.lower().startswith("data_"):
             i += 1
+            block += 1
+            if block >= 1:
+                if not all_blocks:
+                    raise CifError("more than one data block")
+                prefix = f"#{block}/"
             continue
         if k == "word" and v.lower() == "loop_":
             i += 1
@@ -336,7 +344,7 @@ def parse_cif(text: str):
                 raise CifError("loop_ without tags")
             if len(vals) % len(tags):
                 raise CifError(f"loop over {tags[0]}: {len(vals)} values for {len(tags)} items")
-            cat = tags[0][1:].split(".", 1)[0]
+            cat = prefix + tags[0][1:].split(".", 1)[0]
             items = [t[1:].split(".", 1)[1] for t in tags]
             rows = [vals[r:r + len(tags)] for r in range(0, len(vals), len(tags))]
             if cat not in cats:
@@ -347,7 +355,7 @@ def parse_cif(text: str):
             if i + 1 >= n:
                 raise CifError(f"tag {v} without value")
             cat, item = v[1:].split(".", 1)
-            add(cat, item, toks[i + 1][1])
+            add(prefix + cat, item, toks[i + 1][1])
             i += 2
             continue
         raise CifError(f"unexpected token {v!r}")
